@@ -9,7 +9,6 @@ import (
 
 	"github.com/makiuchi-d/gozxing"
 	"github.com/makiuchi-d/gozxing/common"
-	"github.com/makiuchi-d/gozxing/qrcode"
 	qrdec "github.com/makiuchi-d/gozxing/qrcode/decoder"
 
 	"verifharness/fw"
@@ -283,7 +282,7 @@ func c15Hinted(r *fw.Rec, e *csEntry, name, text string, class string) bool {
 	case 2:
 		hints[gozxing.EncodeHintType_MARGIN] = 4
 	}
-	img, err := qrcode.NewQRCodeWriter().Encode(text, gozxing.BarcodeFormat_QR_CODE, 0, 0, hints)
+	img, err := instQRWriter().Encode(text, gozxing.BarcodeFormat_QR_CODE, 0, 0, hints)
 	r.Evals(1)
 	if err != nil {
 		over := 3
@@ -315,7 +314,7 @@ func c15Hinted(r *fw.Rec, e *csEntry, name, text string, class string) bool {
 			r.Tally("designated_symbols_read_with_other_decode_hint")
 		}
 	}
-	res, derr := qrcode.NewQRCodeReader().Decode(bmp, dh)
+	res, derr := instQRReader().Decode(bmp, dh)
 	if derr != nil {
 		r.Violation("roundtrip", "qr.charset:decode-error:"+class, fmt.Sprintf("reader rejected a %s-hinted symbol: %v", name, derr), info)
 		return false
@@ -543,13 +542,13 @@ func c15(c *fw.Ctx) {
 				names := append([]string{e.Name}, e.Aliases...)
 				for _, name := range names {
 					hints := map[gozxing.EncodeHintType]interface{}{gozxing.EncodeHintType_CHARACTER_SET: name}
-					img, err := qrcode.NewQRCodeWriter().Encode(bad, gozxing.BarcodeFormat_QR_CODE, 0, 0, hints)
+					img, err := instQRWriter().Encode(bad, gozxing.BarcodeFormat_QR_CODE, 0, 0, hints)
 					r.Evals(1)
 					if err == nil {
 						detail := fmt.Sprintf("writer accepted %q under CHARACTER_SET=%s although %s cannot represent it", bad, name, e.Name)
 						if img != nil {
 							bmp, _ := gozxing.NewBinaryBitmapFromImage(img)
-							if res, derr := qrcode.NewQRCodeReader().Decode(bmp, map[gozxing.DecodeHintType]interface{}{gozxing.DecodeHintType_PURE_BARCODE: true}); derr == nil {
+							if res, derr := instQRReader().Decode(bmp, map[gozxing.DecodeHintType]interface{}{gozxing.DecodeHintType_PURE_BARCODE: true}); derr == nil {
 								detail += fmt.Sprintf("; the symbol reads back as %q", res.GetText())
 							}
 						}
@@ -625,7 +624,7 @@ func c15(c *fw.Ctx) {
 				}
 				text := sb.String()
 				// pure digits/45-set cannot occur (all classes contain multi-byte characters)
-				img, err := qrcode.NewQRCodeWriter().Encode(text, gozxing.BarcodeFormat_QR_CODE, 0, 0, nil)
+				img, err := instQRWriter().Encode(text, gozxing.BarcodeFormat_QR_CODE, 0, 0, nil)
 				r.Evals(1)
 				info := map[string]interface{}{"text": text, "class": fmt.Sprintf("utf8-kind-%d", kind)}
 				if err != nil {
@@ -635,7 +634,7 @@ func c15(c *fw.Ctx) {
 				bmp, _ := gozxing.NewBinaryBitmapFromImage(img)
 				// one decode-hint map for the whole case (an application's settings object): it says
 				// nothing about the character set, and it must still say nothing after every read
-				res, derr := qrcode.NewQRCodeReader().Decode(bmp, caseHints)
+				res, derr := instQRReader().Decode(bmp, caseHints)
 				if len(caseHints) != 1 {
 					r.Violation("roundtrip", "qr.utf8-nohint:decode-hint-map-changed", fmt.Sprintf("after reading an unhinted symbol the caller's decode-hint map is %v (it held PURE_BARCODE only)", caseHints), info)
 					return
